@@ -43,17 +43,31 @@ def build(ctx):
     fails = []
     d = ctx.dir
     os.makedirs(d, exist_ok=True)
-    # keep only the two most recent tree caches
+    # keep the most recent tree caches; never remove one that was used within the last two hours
+    # (several checks, e.g. against scratch worktrees via VERIF_REPO, may run at the same time)
     others = sorted([x for x in glob.glob(os.path.join(CACHE, "*")) if os.path.isdir(x) and x != d], key=os.path.getmtime)
-    for o in others[:-1]:
-        shutil.rmtree(o, ignore_errors=True)
+    for o in others[:-3]:
+        if time.time() - os.path.getmtime(o) > 7200:
+            shutil.rmtree(o, ignore_errors=True)
+    os.utime(d, None)
     drive = os.path.join(d, "drive")
     if not os.path.exists(drive):
         hz = os.path.join(VERIF, "harness")
+        if os.path.realpath(REPO) != "/repo":
+            # a tree other than /repo (VERIF_REPO): build a private copy of the harness module whose
+            # replace directive points at that tree
+            hz2 = os.path.join(d, "harness")
+            shutil.rmtree(hz2, ignore_errors=True)
+            shutil.copytree(hz, hz2)
+            gm = open(os.path.join(hz2, "go.mod")).read().replace("github.com/SaoNetwork/sao => /repo", "github.com/SaoNetwork/sao => " + os.path.realpath(REPO))
+            open(os.path.join(hz2, "go.mod"), "w").write(gm)
+            hz = hz2
         shutil.copy(os.path.join(REPO, "go.sum"), os.path.join(hz, "go.sum"))
-        rc, out = sh(["go", "build", "-tags", "verif", "-o", drive, "./cmd/drive"], cwd=hz, env=GOENV)
+        rc, out = sh(["go", "build", "-tags", "verif", "-o", drive + ".tmp%d" % os.getpid(), "./cmd/drive"], cwd=hz, env=GOENV)
         if rc != 0:
             fails.append(("harness-build", out[-3000:]))
+        else:
+            os.replace(drive + ".tmp%d" % os.getpid(), drive)
     ctx.drive = drive
     extract = os.path.join(d, "extract")
     if os.path.isdir(os.path.join(VERIF, "harness/cmd/extract")):
@@ -195,7 +209,10 @@ def main():
     fields = set(sum((fp_all["groups"][g] for g in fp["groups"]), []))
     ops = set(fp["ops"])
     ctx = Ctx(); ctx.tier = tier; ctx.hash = treehash(); ctx.dir = os.path.join(CACHE, ctx.hash)
-    os.makedirs(os.path.join(VERIF, "replays"), exist_ok=True)
+    # runs against a scratch tree (VERIF_REPO) keep their replays and evidence in that tree's cache
+    # directory: evidence/ and replays/ only ever describe /repo itself
+    OUT = VERIF if os.path.realpath(REPO) == "/repo" else ctx.dir
+    os.makedirs(os.path.join(OUT, "replays"), exist_ok=True)
     violations, notes = [], []
     fails = build(ctx)
     au = {"theorems": {}, "problems": []}
@@ -297,7 +314,7 @@ def main():
                     compared += int(kv.get("compared", 0))
     # decide
     def write_replay(name, tr, kv, extra):
-        path = os.path.join(VERIF, "replays", name)
+        path = os.path.join(OUT, "replays", name)
         prof, rops = extract_history(tr, int(kv.get("hist", 0)), int(kv["i"]) if kv.get("i", "").isdigit() else -1) if tr else ("main", [])
         json.dump(dict(extra, property=prop, profile=prof, hist=int(kv.get("hist", 0)) if kv else 0, ops=rops,
                        replay_cmd=f"{ctx.drive} -replay <this file> | {ctx.model}"), open(path, "w"), indent=1)
@@ -380,7 +397,7 @@ def main():
             tr, kv, line = mism[0]
             path = write_replay(f"{prop}-broken.json", tr, kv, what)
         else:
-            path = os.path.join(VERIF, "replays", f"{prop}-broken.json")
+            path = os.path.join(OUT, "replays", f"{prop}-broken.json")
             json.dump(dict(what, property=prop), open(path, "w"), indent=1)
         if not found:
             print(f"VIOLATION property={prop} replay={path} no-failing-input-found")
@@ -407,8 +424,8 @@ def main():
         "assumptions": ["model-to-code tie is the differential correspondence recorded above; crypto, IAVL, gas, bank/staking internals are modelled not verified (DESIGN §8)"],
         "wall_s": round(time.time() - t0, 2), "violations": 1 if exit_code else 0,
     }
-    os.makedirs(os.path.join(VERIF, "evidence"), exist_ok=True)
-    json.dump(ev, open(os.path.join(VERIF, "evidence", f"{prop}.json"), "w"), indent=1)
+    os.makedirs(os.path.join(OUT, "evidence"), exist_ok=True)
+    json.dump(ev, open(os.path.join(OUT, "evidence", f"{prop}.json"), "w"), indent=1)
     sys.exit(exit_code)
 
 if __name__ == "__main__":
